@@ -239,7 +239,7 @@ theorem datetime_gap_first_valid_ordered {z : Zone} (hz : ZoneOrdered z) (hsec :
     (hend : EndsBefore z instMax) {n : Int} (hmin : instMin ≤ n) (hn : ¬ Valid z n)
     (hws : n % nsPerSec = 0) :
     ∃ T, FirstValidAfter z n T ∧ datetime z n = .ok T := by
-  obtain ⟨T, a, b, hg⟩ := Option.isSome_iff_exists.mp ((gapOf_isSome_iff_not_valid_ordered hz n).mpr hn)
+  obtain ⟨⟨T, a, b⟩, hg⟩ := Option.isSome_iff_exists.mp ((gapOf_isSome_iff_not_valid_ordered hz n).mpr hn)
   refine ⟨T, (firstValidAfter_of_gapOf hz hg).1, ?_⟩
   have hb : b % nsPerSec = 0 := by
     apply gap_end_seconds (gapOf_eq z n ▸ hg)
